@@ -11,8 +11,8 @@ DRIVERS = ['drv_containers']
 RULE = ('correspondence: (1) exhaustive, every call of every ItemList method (3 free items, a foreign item, a wrong-class '
         'item, None; every index in [-3,5]) from every distinct rack state reachable within the depth bound, complete '
         'state dumps of impl and model compared after each call; (2) random histories of 60 mostly-valid operations '
-        '(35 % malformed) over 39 real items / 2 fits / racks, sets, skills, descriptors, charges, item dicts, solar '
-        'systems, fleet, compared step by step (contents, order, holes, len, items() views, in, _container, _fit). '
+        '(35 % malformed) over 39 real items / 2 fits in solar systems with a live source / racks, sets, skills, '
+        'descriptors, charges, item dicts, compared step by step (contents, order, holes, len, items() views, in, _container, _fit). '
         'Non-trivial = the step raised or follows at least one earlier step; distinct by (last 3 ops, outcome) resp. '
         '(state, op). Oracle: abstract list/set/dict shadow and I4 checked on the real objects after every step.')
 ASSUMPTIONS = [
@@ -157,6 +157,10 @@ def check_invariants(w, rep, case):
             rep.violate('dict A%d: keys / values / len disagree' % m, case)
 
 
+def k0(op):
+    return H.World.line(op)
+
+
 def make_checker(rep, stats, exhaustive=False):
     """on_step hook: snapshot places before, after a successful call compare with the abstract shadow."""
     def on_step(w, before, op, out, ops):
@@ -169,6 +173,11 @@ def make_checker(rep, stats, exhaustive=False):
         after = w.places()
         check_invariants(w, rep, case)
         if out != 'ok':
+            # a call that raises is no move of the abstract model
+            moved = [n for n in after if after[n] != before[n]]
+            if moved:
+                rep.violate('%s raised (%s) yet moved items in %s: %s -> %s' % (
+                    k0(op), out, moved[0], before[moved[0]], after[moved[0]]), case)
             return None
         k = op[0]
         target = None
@@ -219,12 +228,19 @@ def correspondence(ctx):
                       'states_expanded': states, 'calls_compared': steps, 'distinct_states_seen': seen}
     rep.evaluations += steps
     rep.nontrivial.update(('exh', k) for k in range(steps))
-    H.random_histories(rep, ctx.rnd, ctx.n(120, 2500), 60, 0.35, 'C07.random-history')
+    H.random_histories(rep, ctx.rnd, ctx.n(120, 2500), 60, 0.35, 'C07.random-history', fit_ops=False)
 
 
-def run_history(ops, rep, prefix=()):
-    """Re-execute a history on a fresh full-pool world under the checker; True if the property failed."""
+def fresh_world():
     w = H.World()
+    for f in range(len(w.fits)):
+        w.apply(('ssAdd', f % len(w.ss), f))
+    return w
+
+
+def run_history(ops, rep):
+    """Re-execute a history on a fresh full-pool world under the checker; True if the property failed."""
+    w = fresh_world()
     chk = make_checker(rep, {'steps': 0})
     done = []
     for op in ops:
@@ -243,8 +259,8 @@ def oracle(ctx, scale=1):
     chk = make_checker(rep, stats)
     rnd = ctx.sub_rnd('oracle')
     for h in range(ctx.n(60, 1200) * scale):
-        w = H.World()
-        g = H.Gen(w, rnd, 0.3)
+        w = fresh_world()
+        g = H.Gen(w, rnd, 0.3, fit_ops=False)
         ops = []
         for _ in range(60):
             op, tag = g.op()
@@ -281,14 +297,13 @@ def replay(path):
         return 0
     case = v['case']
     exh = 'note' in case
-    w = H.World(pool=H.EX_POOL, nfits=2, nss=1, nfl=0, nholders=0) if exh else H.World()
+    w = H.World(pool=H.EX_POOL, nfits=2, nss=1, nfl=0, nholders=0) if exh else fresh_world()
     rep = C.Report()
     chk = make_checker(rep, {'steps': 0})
-    pre = [('ssAdd', 0, 0), ('ssAdd', 0, 1), ('append', 1, 0, 3)] if exh else []
-    for op in pre:
+    for op in ([('ssAdd', 0, 0), ('ssAdd', 0, 1), ('append', 1, 0, 3)] if exh else []):
         w.apply(op)
     for line in case['history']:
-        op = tuple(None if t == 'N' else int(t) if t.lstrip('-').isdigit() else t for t in line.split())
+        op = H.parse_line(line)
         before = chk(w, None, op, None, None)
         out = w.apply(op)
         chk(w, before, op, out, [op])
